@@ -590,6 +590,19 @@ Proof.
   rewrite <- (seq_length i 0) at 1. apply firstn_all.
 Qed.
 
+Lemma combine_nth_map {A B} (d : A) (l : list A) : forall k (g : nat -> B), k <= length l ->
+  combine l (map g (seq 0 k)) = map (fun j => (nth j l d, g j)) (seq 0 k).
+Proof.
+  induction l as [|x l IH]; intros k g Hk.
+  - simpl in Hk. assert (k = 0) by lia. subst. reflexivity.
+  - destruct k as [|k]; [reflexivity|]. cbn [seq map combine nth]. f_equal.
+    rewrite <- seq_shift, !map_map. cbn [nth]. apply (IH k (fun j => g (S j))). simpl in Hk. lia.
+Qed.
+
+Lemma mem_pair_cons a b x y l :
+  mem_pair a b ((x, y) :: l) = (str_eqb a x && str_eqb b y) || mem_pair a b l.
+Proof. reflexivity. Qed.
+
 Lemma join_r_sep_concat {A} (sep : list (@rch A)) l : l <> [] ->
   join_r sep l ++ sep = concat (map (fun r => r ++ sep) l).
 Proof.
@@ -810,5 +823,221 @@ Proof.
     cbn [bind]. unfold wrow. rewrite firstn_map, firstn_seq0 by (apply le_lim; lia).
     rewrite map_length, seq_length, Nat.eqb_refl. reflexivity.
 Qed.
+
+
+Theorem rt_tril_tril m txt : rt_pre m ->
+  to_phylip O m false = Ok txt -> from_phylip_tril parse_cell (flatten txt) = Ok m.
+Proof. apply rt_tril_any. Qed.
+
+Theorem rt_tril_square m txt : rt_pre m ->
+  to_phylip O m true = Ok txt -> from_phylip_tril parse_cell (flatten txt) = Ok m.
+Proof. apply rt_tril_any. Qed.
+
+(* ---- the strict reader on the writer output ---- *)
+Lemma leqb_refl_ok v : ok_cell v -> leqb O v v = true.
+Proof. intros H. apply Heq; auto. Qed.
+
+Definition trip : Type := (str * list L) * (str * L).
+Definition trips_of (names : list str) (rows : list (list L)) : list trip :=
+  flat_map (fun p => map (pair p) (combine names (snd p))) (combine names rows).
+Definition tstep (st : dmat * list (str * str)) (t : trip) := sstep O (fst (fst t)) st (snd t).
+
+Lemma fill_trips names rows st : fill O names rows st = foldM tstep (trips_of names rows) st.
+Proof.
+  unfold fill, trips_of, tstep.
+  apply (foldM_nested (fun (p : str * list L) => sstep O (fst p)) (fun p => combine names (snd p))).
+Qed.
+
+Section FillWriter.
+Variable m0 : dmat.
+Hypothesis Hwf : wf_m m0.
+
+Definition Good (t : trip) : Prop :=
+  In (fst (fst t)) (mtaxa m0) /\ In (fst (snd t)) (mtaxa m0) /\
+  dm_get O m0 (fst (fst t)) (fst (snd t)) = Ok (snd (snd t)) /\ ok_cell (snd (snd t)).
+
+Definition Inv1 (pre : list trip) (st : dmat * list (str * str)) : Prop :=
+  msize (fst st) = msize m0 /\ mtaxa (fst st) = mtaxa m0 /\
+  length (mcells (fst st)) = length (mcells m0) /\
+  (forall a b, mem_pair a b (snd st) = true -> dm_get O (fst st) a b = dm_get O m0 a b) /\
+  (forall t, In t pre -> mem_pair (fst (fst t)) (fst (snd t)) (snd st) = true \/
+                         mem_pair (fst (snd t)) (fst (fst t)) (snd st) = true).
+
+Lemma Inv1_step pre t st : Good t -> Inv1 pre st ->
+  exists st', tstep st t = Ok st' /\ Inv1 (pre ++ [t]) st'.
+Proof.
+  destruct Hwf as [Hs Hc].
+  destruct st as [mm seen], t as [[n1 row] [n2 d]]. unfold Good, Inv1, tstep. cbn [fst snd].
+  intros (Hi1 & Hi2 & Hg & Hd) (F1 & F2 & F3 & HC & HP). unfold sstep. cbn [fst snd].
+  destruct (mem_pair n2 n1 seen) eqn:Em.
+  - assert (E : dm_get O mm n1 n2 = Ok d).
+    { rewrite get_sym, (HC _ _ Em), get_sym. assumption. }
+    rewrite E. cbn [lift_m bind]. rewrite leqb_refl_ok by assumption. cbn [negb].
+    eexists. split; [reflexivity|]. cbn [fst snd]. repeat split; try assumption.
+    intros t Ht. apply in_app_or in Ht. destruct Ht as [Ht|[<-|[]]]; [auto|]. right. assumption.
+  - destruct (str_eqb n1 n2) eqn:En.
+    + apply str_eqb_eq in En. subst n2. rewrite get_diag in Hg. injection Hg as <-.
+      rewrite set_diag, leqb_refl_ok by assumption. cbn [lift_m bind].
+      eexists. split; [reflexivity|]. cbn [fst snd]. repeat split; try assumption.
+      * intros a b. rewrite mem_pair_cons. intros H. apply orb_true_iff in H. destruct H as [H|H]; [|auto].
+        apply andb_true_iff in H. destruct H as [Ha Hb]. apply str_eqb_eq in Ha, Hb. subst.
+        rewrite !get_diag. reflexivity.
+      * intros t Ht. apply in_app_or in Ht. rewrite !mem_pair_cons. destruct Ht as [Ht|[<-|[]]].
+        -- destruct (HP t Ht) as [H|H]; rewrite H, !orb_true_r; auto.
+        -- cbn [fst snd]. rewrite !str_eqb_refl. left. reflexivity.
+    + apply str_eqb_neq in En.
+      destruct (set_ok O mm n1 n2 d) as [mm' Hset]; try congruence; try (rewrite F2; assumption).
+      rewrite Hset. cbn [lift_m bind].
+      destruct (set_frame O _ _ _ _ _ Hset) as (G1 & G2 & G3).
+      eexists. split; [reflexivity|]. cbn [fst snd]. repeat split; try congruence.
+      * intros a b. rewrite mem_pair_cons. intros H.
+        destruct (str_eqb a n1 && str_eqb b n2) eqn:Eab.
+        -- apply andb_true_iff in Eab. destruct Eab as [Ha Hb]. apply str_eqb_eq in Ha, Hb. subst.
+           rewrite Hg. apply (get_set_same O _ _ _ _ _ En Hset).
+        -- simpl in H. rewrite <- (HC _ _ H). apply (get_set_other O _ _ _ _ _ _ _ ) with (3 := Hset).
+           ++ intros E. injection E as -> ->. rewrite !str_eqb_refl in Eab. discriminate.
+           ++ intros E. injection E as -> ->. congruence.
+      * intros t Ht. apply in_app_or in Ht. rewrite !mem_pair_cons. destruct Ht as [Ht|[<-|[]]].
+        -- destruct (HP t Ht) as [H|H]; rewrite H, !orb_true_r; auto.
+        -- cbn [fst snd]. rewrite !str_eqb_refl. left. reflexivity.
+Qed.
+
+Lemma Inv1_run l st : Forall Good l -> Inv1 [] st ->
+  exists st', foldM tstep l st = Ok st' /\ Inv1 l st'.
+Proof.
+  intros Hl Hst.
+  apply (foldM_prefix_ok tstep Inv1 l) with (pre := []); [|assumption].
+  intros pre x s Hin. apply Inv1_step. eapply Forall_forall; eassumption.
+Qed.
+
+End FillWriter.
+
+
+Lemma nth_taxa_neq m i j : NoDup (mtaxa m) -> i < length (mtaxa m) -> j < length (mtaxa m) -> i <> j ->
+  nth i (mtaxa m) [] <> nth j (mtaxa m) [].
+Proof.
+  intros Hnd Hi Hj E Hn. apply E. apply (proj1 (NoDup_nth (mtaxa m) []) Hnd); assumption.
+Qed.
+
+Lemma find_nth_taxa m i : NoDup (mtaxa m) -> i < length (mtaxa m) ->
+  find_str (nth i (mtaxa m) []) (mtaxa m) = Some i.
+Proof. intros Hnd Hi. apply find_str_nodup; [assumption|]. apply nth_error_nth'. assumption. Qed.
+
+Lemma get_wcell m i j : wf_m m -> NoDup (mtaxa m) -> i < msize m -> j < msize m ->
+  dm_get O m (nth i (mtaxa m) []) (nth j (mtaxa m) []) = Ok (wcell (mcells m) i j).
+Proof.
+  intros [Hs Hc] Hnd Hi Hj. unfold wcell. destruct (Nat.eqb i j) eqn:E.
+  - apply Nat.eqb_eq in E. subst. apply get_diag.
+  - apply Nat.eqb_neq in E.
+    rewrite (get_spec O m _ _ i j); try assumption.
+    + rewrite (nth_error_nth' (mcells m) (l0 O)); [reflexivity|]. rewrite Hc. apply tril_lt_any; assumption.
+    + apply nth_taxa_neq; try assumption; lia.
+    + apply find_nth_taxa; [assumption|lia].
+    + apply find_nth_taxa; [assumption|lia].
+Qed.
+
+Lemma trips_writer_in m sq t : wf_m m ->
+  In t (trips_of (mtaxa m) (map (wrow m sq) (seq 0 (msize m)))) <->
+  exists i j, i < msize m /\ j < lim sq (msize m) i /\
+    t = ((nth i (mtaxa m) [], wrow m sq i), (nth j (mtaxa m) [], wcell (mcells m) i j)).
+Proof.
+  intros [Hs Hc]. unfold trips_of. rewrite (combine_nth_map ([] : str)) by lia.
+  rewrite in_flat_map. split.
+  - intros (p & Hp & Ht). apply in_map_iff in Hp. destruct Hp as (i & <- & Hi). apply in_seq in Hi.
+    apply in_map_iff in Ht. destruct Ht as (q & <- & Hq). cbn [snd] in Hq. unfold wrow in Hq.
+    rewrite (combine_nth_map ([] : str)) in Hq by (pose proof (lim_le sq (msize m) i); lia).
+    apply in_map_iff in Hq. destruct Hq as (j & <- & Hj). apply in_seq in Hj.
+    exists i, j. repeat split; try lia.
+  - intros (i & j & Hi & Hj & ->). exists (nth i (mtaxa m) [], wrow m sq i). split.
+    + apply in_map_iff. exists i. split; [reflexivity|]. apply in_seq. lia.
+    + apply in_map. cbn [snd]. unfold wrow.
+      rewrite (combine_nth_map ([] : str)) by (pose proof (lim_le sq (msize m) i); lia).
+      apply in_map_iff. exists j. split; [reflexivity|]. apply in_seq. lia.
+Qed.
+
+Lemma lim_lt sq n i j : i < n -> j < lim sq n i -> j < n.
+Proof. destruct sq; simpl; lia. Qed.
+
+Lemma inv1_final m sq mm seen : wf_m m -> NoDup (mtaxa m) ->
+  Inv1 m (trips_of (mtaxa m) (map (wrow m sq) (seq 0 (msize m)))) (mm, seen) -> mm = m.
+Proof.
+  intros Hwf Hnd (F1 & F2 & F3 & HC & HP). cbn [fst snd] in *. pose proof Hwf as [Hs Hc].
+  assert (E : mcells mm = mcells m).
+  { apply nth_error_ext_eq. intros k. destruct (Nat.lt_ge_cases k (length (mcells m))) as [Hk|Hk].
+    - pose proof (tril_surj (msize m) k) as Hsj. rewrite <- Hc in Hsj. specialize (Hsj Hk).
+      destruct (tril_inv k) as [i j]. destruct Hsj as (Hji & Hin & <-).
+      set (a := nth i (mtaxa m) []). set (b := nth j (mtaxa m) []).
+      assert (Hg : dm_get O mm a b = dm_get O m a b).
+      { destruct (HP ((a, wrow m sq i), (b, wcell (mcells m) i j))) as [H|H].
+        - apply trips_writer_in; [assumption|]. exists i, j. repeat split; [assumption|].
+          destruct sq; simpl; lia.
+        - apply HC. assumption.
+        - rewrite get_sym, (get_sym O m). apply HC. assumption. }
+      assert (Hab : a <> b) by (apply nth_taxa_neq; try assumption; lia).
+      rewrite (get_spec O mm a b i j), (get_spec O m a b i j) in Hg; try assumption; try lia;
+        try (rewrite F2); try (apply find_nth_taxa; [assumption|lia]).
+      destruct (nth_error (mcells mm) (tril_idx i j)), (nth_error (mcells m) (tril_idx i j)); congruence.
+    - rewrite (proj2 (nth_error_None (mcells m) k)) by assumption.
+      apply nth_error_None. lia. }
+  destruct mm, m; simpl in *; subst; reflexivity.
+Qed.
+
+Lemma wrow_length m sq i : length (wrow m sq i) = lim sq (msize m) i.
+Proof. unfold wrow. rewrite map_length, seq_length. reflexivity. Qed.
+
+Lemma wrow_diag m i : i < msize m -> nth i (wrow m true i) (l0 O) = l0 O.
+Proof.
+  intros Hi. unfold wrow, lim.
+  rewrite (nth_indep _ (l0 O) (wcell (mcells m) i 0)) by (rewrite map_length, seq_length; assumption).
+  rewrite map_nth, seq_nth by assumption. unfold wcell. simpl. rewrite Nat.eqb_refl. reflexivity.
+Qed.
+
+(* the strict reader on either writer output (same shape flag) *)
+Lemma rt_strict_any m sq txt : rt_pre m -> NoDup (mtaxa m) ->
+  to_phylip O m sq = Ok txt -> from_phylip_strict O parse_cell (flatten txt) sq = Ok m.
+Proof.
+  intros (Hwf & Hn & Hnames & Hcells & Hb) Hnd Hw.
+  rewrite strict_unfold. rewrite (writer_lines m sq txt Hwf Hn Hnames Hw).
+  rewrite parse_usize_dec by assumption.
+  rewrite map_length, seq_length, combine_map_self.
+  pose proof Hwf as [Hs Hc].
+  rewrite (mapM_map _ (fun p => (nth (fst p) (mtaxa m) [], wrow m sq (fst p)))).
+  2:{ intros p Hp. apply in_map_iff in Hp. destruct Hp as (i & <- & Hi). apply in_seq in Hi.
+      unfold strict_row. cbn [fst snd].
+      rewrite read_row_print by (try (apply nth_names_ok; [assumption|lia]); apply wrow_ok; assumption).
+      cbn [bind]. rewrite wrow_length.
+      rewrite (proj2 (Nat.leb_gt (msize m) i)) by lia.
+      destruct sq; cbn [lim andb negb orb]; rewrite Nat.eqb_refl; cbn [andb negb orb].
+      - rewrite wrow_diag by lia. rewrite leqb_refl_ok by assumption. reflexivity.
+      - reflexivity. }
+  cbn [bind]. cbv zeta. rewrite !map_map. cbn [fst snd].
+  assert (Et : map (fun x => nth x (mtaxa m) []) (seq 0 (msize m)) = mtaxa m)
+    by (rewrite Hs; apply map_nth_all).
+  rewrite Et. rewrite <- Hs, Nat.eqb_refl. cbn [negb].
+  unfold dm_set_taxa, dm_with_size. cbn [msize mcells]. rewrite <- Hs, Nat.eqb_refl. cbn [lift_m bind].
+  rewrite fill_trips.
+  match goal with |- context [foldM tstep ?l ?s] =>
+    destruct (Inv1_run m Hwf l s) as ([mm seen] & Hf & Hinv) end.
+  - apply Forall_forall. intros t Ht. apply trips_writer_in in Ht; [|assumption].
+    destruct Ht as (i & j & Hi & Hj & ->). pose proof (lim_lt _ _ _ _ Hi Hj) as Hj'.
+    unfold Good. cbn [fst snd]. repeat split.
+    + apply nth_In. lia.
+    + apply nth_In. lia.
+    + apply get_wcell; assumption.
+    + apply wcell_ok. assumption.
+  - unfold Inv1. cbn [fst snd msize mtaxa mcells]. repeat split.
+    + rewrite repeat_length. symmetry. assumption.
+    + intros a b H. discriminate.
+    + intros t [].
+  - rewrite Hf. cbn [bind fst]. f_equal. eapply inv1_final; eassumption.
+Qed.
+
+Theorem rt_strict_tril m txt : rt_pre m -> NoDup (mtaxa m) ->
+  to_phylip O m false = Ok txt -> from_phylip_strict O parse_cell (flatten txt) false = Ok m.
+Proof. apply rt_strict_any. Qed.
+
+Theorem rt_strict_square m txt : rt_pre m -> NoDup (mtaxa m) ->
+  to_phylip O m true = Ok txt -> from_phylip_strict O parse_cell (flatten txt) true = Ok m.
+Proof. apply rt_strict_any. Qed.
 
 End RoundTrip.
